@@ -256,6 +256,11 @@ def run_case(case, provider=None):
     return rec
 
 
+def run_sequence(cases):
+    """several runs one after the other in this same process (history-sensitive behaviour); returns their records in order"""
+    return [run_case(c) for c in cases]
+
+
 def ping(arg):
     import sqllineage
 
